@@ -122,7 +122,7 @@ def enc(m, v):
         return ["uuid", v.bytes.hex(), "hippo" if isinstance(v, m.dt.UUID) else "std"]
     if isinstance(v, datetime.datetime):
         return ["date", [v.year, v.month, v.day, v.hour, v.minute, v.second, v.microsecond],
-                "naive" if v.tzinfo is None else "utc"]
+                "naive" if v.tzinfo is None else "utc" if not v.utcoffset() else "off%d" % (v.utcoffset() // datetime.timedelta(minutes=1))]
     if isinstance(v, datetime.date):
         return ["date", [v.year, v.month, v.day, 0, 0, 0, 0], "dateonly"]
     if isinstance(v, bytes):
@@ -158,6 +158,8 @@ def dec(m, j):
         y, mo, d, h, mi, s, us = j[1]
         if j[2] == "dateonly":
             return datetime.date(y, mo, d)
+        if j[2].startswith("off"):
+            return datetime.datetime(y, mo, d, h, mi, s, us, tzinfo=datetime.timezone(datetime.timedelta(minutes=int(j[2][3:]))))
         return datetime.datetime(y, mo, d, h, mi, s, us, tzinfo=None if j[2] == "naive" else UTC)
     if t == "bin":
         b = bytes.fromhex(j[1])
@@ -378,6 +380,9 @@ def gen_date(rng, aware_ok):
         return datetime.date(rng.randrange(1, 10000), rng.randrange(1, 13), rng.randrange(1, 29))
     if aware_ok and rng.random() < 0.5:
         d = d.replace(tzinfo=UTC)
+        if aware_ok == "offsets" and rng.random() < 0.5 and datetime.datetime(2, 1, 1) < d.replace(tzinfo=None) < datetime.datetime(9999, 12, 30):
+            # the same kind of value with another UTC offset (an aware datetime names an instant whatever its offset)
+            d = d.replace(tzinfo=datetime.timezone(datetime.timedelta(minutes=rng.choice((330, -480, 60, -1, 765, -720)))))
     return d
 
 
@@ -599,9 +604,15 @@ def codec_side_effects(m, fmt, v):
 def strip_class(m, v, cls):
     """rewrite the input so that a *known* divergence class no longer applies (to classify a failure)"""
     if isinstance(v, dict):
-        return {k: strip_class(m, x, cls) for k, x in v.items()}
+        return {(k.replace("\r", "") if cls == "cr" else k): strip_class(m, x, cls) for k, x in v.items()}
     if isinstance(v, (list, tuple)):
         return [strip_class(m, x, cls) for x in v]
+    if cls == "cr":
+        if isinstance(v, m.uri):
+            return m.uri(str(v).replace("\r", ""))
+        if isinstance(v, str):
+            return v.replace("\r", "")
+        return v
     if cls == "uri" and isinstance(v, m.uri):
         return str(v)
     if cls == "aware" and isinstance(v, datetime.datetime) and v.tzinfo is not None:
@@ -658,7 +669,18 @@ def classify(m, fmt, v):
     if has_aware(m, v) and fmt in ("notation", "xml") and (
             ok(strip_class(m, v, "aware")) or ok(strip_class(m, strip_class(m, v, "aware"), "micros"))):
         return "aware-datetime-unparseable-" + fmt
+    if fmt == "xml" and has_cr(m, v) and (ok(strip_class(m, v, "cr")) or ok(strip_class(m, strip_class(m, v, "cr"), "micros"))):
+        return "carriage-return-lost-xml"
     return "other-" + fmt
+
+
+def has_cr(m, v):
+    for x in walk(m, v):
+        if isinstance(x, str) and "\r" in x:
+            return True
+        if isinstance(x, dict) and any("\r" in k for k in x):
+            return True
+    return False
 
 
 # --------------------------------------------------------------------------
@@ -1135,8 +1157,8 @@ def suite_oracle(ctx, m):
     res = CorrResult(
         suite="impl-level oracle: LLSD trees x {binary, binary+header, notation, XML, zipped}",
         rule="corpus + exhaustive small scope + seeded random trees (depth<=4; all LLSD types; naive datetimes, UTC-aware "
-             "datetimes as parse_binary returns them, dates; XML-legal text without CR for the XML leg, arbitrary text "
-             "otherwise); parse(format(v)) must have the same LLSD type, value (reals by bits) and instant; notation output "
+             "datetimes as parse_binary returns them and aware datetimes with other UTC offsets, dates; XML-legal text without CR for the XML leg (CR through XML is the recorded "
+             "finding c12-xml-cr, whose witness is replayed on every run), arbitrary text otherwise); parse(format(v)) must have the same LLSD type, value (reals by bits) and instant; notation output "
              "of a tree whose keys and URIs have no newline must contain no 0x0A; side effects: a formatter leaves its argument "
              "unchanged and is repeatable, two parses of the same bytes are equal and share no containers; non-trivial = tree with a container, "
              "date, URI or string")
@@ -1149,7 +1171,7 @@ def suite_oracle(ctx, m):
         trees.append((t, FORMATS))
     for _ in range(ctx.pick(2500, 40000)):
         xml = rng.random() < 0.5
-        t = gen_tree(m, rng, rng.choice((1, 2, 3, 4)), {"xml_legal": xml, "aware": rng.random() < 0.25})
+        t = gen_tree(m, rng, rng.choice((1, 2, 3, 4)), {"xml_legal": xml, "aware": "offsets" if rng.random() < 0.25 else False})
         trees.append((t, FORMATS if xml else ("binary", "binary-header", "notation", "zip")))
     per_class = {}
     counts = {}
@@ -1690,12 +1712,24 @@ def correspond(ctx):
     return [suite_binary(ctx, m), suite_notation(ctx, m), suite_oracle(ctx, m), suite_tz(ctx, m), suite_messages(ctx, m)]
 
 
+def _recorded(v):
+    """a failure that known_findings.json already lists is not the replay of a *new* violation"""
+    from harness.common.framework import load_findings, _matches_known
+    return v is not None and _matches_known(v, load_findings("C12"))
+
+
 def search(ctx, hints):
     m = _mods()
+    _ct = check_tree
+
+    def check_tree(m_, fmt, t):          # noqa  (shadows the module-level oracle inside the search only)
+        v = _ct(m_, fmt, t)
+        return None if _recorded(v) else v
     for h in hints:
         v = h.get("impl_violation")
         if v:
-            return v
+            if not _recorded(v):
+                return v
     # disagreements between model and code: look for a property-level failure near the disagreeing input
     for h in hints:
         d = h.get("disagreement")
@@ -1712,7 +1746,7 @@ def search(ctx, hints):
             if v:
                 return v
     for _ in range(3000):
-        t = gen_tree(m, rng, rng.choice((1, 2, 3)), {"xml_legal": True, "aware": rng.random() < 0.3})
+        t = gen_tree(m, rng, rng.choice((1, 2, 3)), {"xml_legal": True, "aware": "offsets" if rng.random() < 0.3 else False})
         for fmt in FORMATS:
             v = check_tree(m, fmt, t)
             if v:
